@@ -160,7 +160,7 @@ def _verdict(pid, prop, tier, seed, agg, wall, replay):
     for v in new_viol:
         by_sig.setdefault(v["sig"], []).append(v)
     for sig, vs in sorted(by_sig.items()):
-        for n, v in enumerate(vs[:3]):
+        for n, v in enumerate(vs[:1]):
             safe = "".join(c if c.isalnum() or c in "-_." else "_" for c in sig)[:100]
             path = os.path.join(replay_dir, f"{safe}-{n}.json")
             with open(path, "w") as f:
